@@ -10,6 +10,7 @@ import ast
 import itertools
 import json
 import sys
+import time
 from pathlib import Path
 from typing import Any, Dict, List, Optional, Tuple
 
@@ -460,8 +461,11 @@ class Check(PropertyCheck):
 
     # ------------------------------------------------------------------------------------------ correspondence
     def correspondence(self) -> List[Violation]:
+        t0 = time.time()
         cases = self.cases()
+        self.stats['t_cases'] = round(time.time() - t0, 1)
         impl = lib.run_impl_worker(WORKER, cases, jobs=16)
+        self.stats['t_impl'] = round(time.time() - t0, 1)
         self.evaluations = len(cases)
         out: List[Violation] = []
         ncorr = 0
@@ -485,8 +489,10 @@ class Check(PropertyCheck):
         m0 = self.model('exprprint', m0_in)
         m1 = self.model('exprprint', m1_in)
         self.stats['model_runs'] = len(m0_in) + len(m1_in)
+        self.stats['t_model'] = round(time.time() - t0, 1)
 
         verdicts = self.run_oracle(cases, impl)
+        self.stats['t_oracle'] = round(time.time() - t0, 1)
 
         gen_cache: Dict[str, Optional[List[str]]] = {}
         nontrivial = 0
@@ -523,6 +529,7 @@ class Check(PropertyCheck):
                                          case=c, expected=canon_model, observed=canon_impl))
             if depth(e) >= 2 or (ll, ml, lb) != FLAT:
                 nontrivial += 1
+        self.stats['t_compare'] = round(time.time() - t0, 1)
         self.stats['correspondence_mismatches'] = ncorr
         self.stats['distinct_nontrivial'] = nontrivial
 
@@ -557,6 +564,7 @@ class Check(PropertyCheck):
                 if not read_ok and len(out) < 40:
                     out.append(Violation('correspondence', 'Spec.PyGrammar.read (pp e) <> norm e on a tree inside the guard of '
                                          'C15_read_print', case=c, expected='read back', observed=tree))
+        self.stats['t_tokens'] = round(time.time() - t0, 1)
         self.stats['token_views_checked'] = ntok
         self.stats['read_print_instances'] = nread
 
@@ -576,7 +584,9 @@ class Check(PropertyCheck):
         for c in [cases[0], cases[len(cases) // 3], cases[len(cases) // 2], cases[-1]]:
             self.sample({'expr': c[0], 'linelen': c[1], 'maxlines': c[2], 'linebreakok': c[3], 'ctx': c[4]})
 
+        self.stats['t_explain'] = round(time.time() - t0, 1)
         self.spec_validation(m1, m1_keys)
+        self.stats['t_specval'] = round(time.time() - t0, 1)
         return out
 
     # ------------------------------------------------------------------------------------------ spec validation
